@@ -3,11 +3,13 @@ import vlib
 from props import solverstream as ss, tracecheck as tc, enctie
 
 THEOREMS = ["C01_oracle_correct", "C01_closed_model_valid", "C01_final_state_valid", "C01_trace_sound",
-            "C01_encoder_complete", "C01_encoder_model_valid", "C01_encoder_final_closed"]
+            "C01_encoder_complete", "C01_encoder_model_valid", "C01_encoder_final_closed",
+            "C01_watch_created_ok", "C01_unit_is_asserted", "C01_late_lock_is_handled"]
 CHECKER = ("coqc Props/C01.v + Print Assumptions; harness solve_cases (debug+release, sync+yield): (a) hook logs -> extracted "
            "check_sat_log_lenient (trace inclusion, theorem C01_trace_sound), (b) extracted o_valid on every returned solution, "
            "(c) extracted encoder model (enc_solve) vs the dumped clause database of every synchronous run: clause-for-clause "
-           "equality, trail equality, enc_final_ok")
+           "equality, trail equality, enc_final_ok; reported conflicts and registered assertions equal to the model of the clause "
+           "constructors (check_watch)")
 
 
 def run(res, tier, seed, replay):
@@ -23,6 +25,12 @@ def run(res, tier, seed, replay):
     ss.oracle_sat(recs)
     tc.annotate(recs)
     enctie.annotate(recs)
+    enctie.annotate_watch(recs)
+    for r in recs:
+        if not enctie.ok_watch(r):
+            res.tie_break(f"clause-creation correspondence no longer checks for a run in {r['stream']}: the clauses the implementation reports "
+                          f"as conflicting / registers as assertions differ from the model of the clause constructors, or a side condition "
+                          f"of C01_watch_created_ok fails: {r['watch']}", enctie.replay(r))
     nsat, hist = 0, {}
     for r in recs:
         k = ss.outcome_kind(r["obs"]["outcome"])
